@@ -66,6 +66,12 @@ pub struct HCase {
     pub w_len: usize,
 }
 
+#[derive(Serialize, Deserialize, Hash, Debug, Clone)]
+pub enum Either {
+    H(HCase),
+    E(Extract),
+}
+
 fn check_h(c: &HCase) -> CaseResult {
     let z = expand_bytes(c.z_seed, c.z_len);
     if c.which == 1 {
@@ -276,6 +282,18 @@ pub fn run(ctx: &Ctx) {
     ctx.generated("h1_h2_generated", "proptest H1(ID||hid) and H2(M||w) against the reference (prefix, counter framing, 40-byte truncation)", ctx.tier.pick(20_000, 300_000), || {
         (1..3u8, 0..=300usize, any::<u64>(), 1..4u8, prop_oneof![Just(384usize), 0..=400usize]).prop_map(|(which, z_len, z_seed, hid, w_len)| HCase { which, z_len, z_seed, hid, w_len })
     }, check_h);
+
+    ctx.exhaustive("long_identities", "H1 / H2 and the three extractions for identities (resp. messages) of 122..129, 250..257, 1000, 4096, 8191, 8192, 65535, 65536, 70000 bytes: an identity is a byte string of any length (buffer caps, 8- and 16-bit length fields, limits borrowed from SM2's ENTL)", || {
+        let mut v = Vec::new();
+        for (i, l) in [122usize, 123, 127, 128, 129, 250, 251, 255, 256, 257, 1000, 4096, 8191, 8192, 65535, 65536, 70_000].iter().enumerate() {
+            for hid in 1..=3u8 {
+                v.push(Either::H(HCase { which: 1, z_len: *l, z_seed: 0x1d00 + i as u64, hid, w_len: 0 }));
+                v.push(Either::E(Extract { hid, k: Hex(expand_bytes(0x1d40 + i as u64, 32)), craft_fail: false, id_len: *l, id_seed: 0x1d80 + i as u64 + hid as u64 * 100, pub_rep: (i % 6) as u8 }));
+            }
+            v.push(Either::H(HCase { which: 2, z_len: *l, z_seed: 0x1dc0 + i as u64, hid: 0, w_len: 384 }));
+        }
+        v
+    }, |c: &Either| match c { Either::H(h) => check_h(h), Either::E(e) => check_extract(e) });
 
     ctx.listed("annex_keys", "Annex A ds_A (hid 01, Alice) and Annex C de_B (hid 03, Bob)", || vec![1u8, 3u8], |hid| {
         if *hid == 1 {
